@@ -64,6 +64,9 @@ type Case struct {
 	// the tasks are queued and before the first hop polls
 	Extra   []ExtraTask `json:"extra,omitempty"`
 	Between []BetweenOp `json:"between,omitempty"`
+	// SCALE dimension (scale_test.go): a large count of tasks for the target / relayed callbacks /
+	// children of one hop, run between the setup of the chain and the ordinary steps
+	Scale *Scale `json:"scale,omitempty"`
 }
 
 func keyFrom(seed byte) ([]byte, []byte) {
@@ -123,6 +126,7 @@ func gen(t *rapid.T) Case {
 		}
 	}
 	genBetween(t, &c)
+	genScale(t, &c)
 	return c
 }
 
@@ -268,6 +272,10 @@ func check(c Case) *core.Violation {
 	}
 	// drain whatever is queued at the root
 	w.Checkin(chain[0], nil)
+
+	if v := scalePhase(c, w, chain, side, tag); v != nil {
+		return v
+	}
 
 	// ---------------------------------------------------------------- downward
 	target := chain[depth]
@@ -564,6 +572,10 @@ func classify(c Case) core.Class {
 			cl.Labels = append(cl.Labels, "iv-about-to-carry:"+where, "iv:"+demonref.IVEdgeNames[e])
 		}
 	}
+	if sl, fp := scaleLabels(c); fp != "" {
+		cl.Labels = append(cl.Labels, sl...)
+		cl.Fingerprint += "|scale=" + fp
+	}
 	if bl, fp := betweenLabels(c); fp != "none" {
 		cl.Labels = append(cl.Labels, bl...)
 		cl.Fingerprint += "|btw=" + fp
@@ -574,7 +586,7 @@ func classify(c Case) core.Class {
 func TestC08(t *testing.T) {
 	core.Run(t, core.Spec[Case]{
 		Property: "C08", Sub: "a",
-		Rule: "pivot chains of depth 1-5 (optional sibling of the target) built through real, relayed SMB_CONNECT callbacks; ids from {1,2,2^31-1,2^31,2^32-1,random}, distinct keys, one agent in four with an IV whose counter block is about to carry (all 0xff, low 64 / 32 bits 0xff, ...fffffffe, ...fffffff0-ff, carry through 15 bytes: the Demon counts all 16 bytes as one big-endian counter); two operator tasks (sleep, fs/cd) for the last agent are unwrapped from the first hop's check-in reply layer by layer with each hop's own key and SmbRecv's frame rules; then a callback of the last agent is wrapped once per ancestor in scenarios ok / id never issued / id outstanding only for the parent / encrypted under the parent's key / sent by the sibling with the target's id / one frame mixing callbacks with never-issued ids and the outstanding one in either order; then (2 of 3 cases) one agent of the chain - the target or one of its ancestors - reconnects under a new directly connected agent (in half of these the old parent afterwards still hands in a frame it had read from the moved agent: the link must stay as the reconnect set it; in some a hop between the new first hop and the target answers a CHECKIN task with a new session key, which its layer must then be sealed with) and a third task for the last agent must be found, correctly wrapped for the new chain, at the new first hop and not at the old one. Operator commands between issue and poll (more than half of the cases carry in-between commands, a third extra tasks; about 1 in 5 a `task clear` on an intermediate hop while a descendant's task is pending): together with the target's two tasks, further tasks (sleep, fs/cd) are queued for several agents of the tree - first hop, intermediate hops, target, sibling - before, between and after the target's; then, before the first hop polls, a generated sequence of 1-3 operator commands runs through the real paths (Session/Input with CommandID Teamserver: `task::clear` or `task::list` on the first hop / an intermediate hop / the target / the sibling; a further task for any agent; Session/MarkAsDead marking an agent alive or the sibling dead); every task of the first hop's reply is followed down the tree (each layer must name a child of the hop that opened it) and every task issued for an agent whose queue the operator did not clear (clearing the first hop's queue releases everything waiting there; clearing a pivot agent's queue releases only that agent's own tasks) must arrive exactly once, in the order of issue, under that agent's key with the issued arguments - in particular a descendant's pending task survives `task clear` on a hop above it; nothing unissued or repeated may arrive. Non-trivial: depth >= 2 or an id >= 2^31; distinct = (depth, big id, sibling, scenario)",
+		Rule: "pivot chains of depth 1-5 (optional sibling of the target) built through real, relayed SMB_CONNECT callbacks; ids from {1,2,2^31-1,2^31,2^32-1,random}, distinct keys, one agent in four with an IV whose counter block is about to carry (all 0xff, low 64 / 32 bits 0xff, ...fffffffe, ...fffffff0-ff, carry through 15 bytes: the Demon counts all 16 bytes as one big-endian counter); two operator tasks (sleep, fs/cd) for the last agent are unwrapped from the first hop's check-in reply layer by layer with each hop's own key and SmbRecv's frame rules; then a callback of the last agent is wrapped once per ancestor in scenarios ok / id never issued / id outstanding only for the parent / encrypted under the parent's key / sent by the sibling with the target's id / one frame mixing callbacks with never-issued ids and the outstanding one in either order; then (2 of 3 cases) one agent of the chain - the target or one of its ancestors - reconnects under a new directly connected agent (in half of these the old parent afterwards still hands in a frame it had read from the moved agent: the link must stay as the reconnect set it; in some a hop between the new first hop and the target answers a CHECKIN task with a new session key, which its layer must then be sealed with) and a third task for the last agent must be found, correctly wrapped for the new chain, at the new first hop and not at the old one. Operator commands between issue and poll (more than half of the cases carry in-between commands, a third extra tasks; about 1 in 5 a `task clear` on an intermediate hop while a descendant's task is pending): together with the target's two tasks, further tasks (sleep, fs/cd) are queued for several agents of the tree - first hop, intermediate hops, target, sibling - before, between and after the target's; then, before the first hop polls, a generated sequence of 1-3 operator commands runs through the real paths (Session/Input with CommandID Teamserver: `task::clear` or `task::list` on the first hop / an intermediate hop / the target / the sibling; a further task for any agent; Session/MarkAsDead marking an agent alive or the sibling dead); every task of the first hop's reply is followed down the tree (each layer must name a child of the hop that opened it) and every task issued for an agent whose queue the operator did not clear (clearing the first hop's queue releases everything waiting there; clearing a pivot agent's queue releases only that agent's own tasks) must arrive exactly once, in the order of issue, under that agent's key with the issued arguments - in particular a descendant's pending task survives `task clear` on a hop above it; nothing unissued or repeated may arrive. SCALE (about 1 case in 85; runs between the setup of the chain and the ordinary steps, which then follow on the same chain): one count is drawn from the threshold-adjacent pool {63,64,65,127,128,129,255,256,257,511,512,513,999,1000,1001,1023,1024,1025,2047,2048,2049,4095,4096,4097} - (1) tasks issued over the life of the chain to ONE pivot agent, the target: pool cut at 4097 in the quick tier, 16385 in the thorough tier; an ordinary polled task before the bulk, in the middle of it a task for another agent of the tree and `task list` on the target, the ordinary two tasks after it; the first and last three, every eighth and the tasks at threshold-adjacent lifetime ordinals go through the whole operator path (Session/Input), the others enter at Agent.AddJobToQueue, the call that path ends in (cost); the first hop polls every k tasks (k from {1,2,3,16,63..65,255..257,1000,1024,4096,never before the end}, raised to count/200) and EVERY task of every polled batch is followed down the tree layer by layer and must be the next task in the order of issue, once, with its arguments; (2) relayed callbacks (pool cut at 513 quick / 4097 thorough): the target answers that many of its outstanding bulk tasks, 1..1025 callbacks per relayed frame (at most 130 frames), each must take effect exactly once on the target's session, one callback with a never-issued id in the middle must not; (3) children of one hop (pool cut at 257 quick / 1025 thorough): that many agents with generated ids connect through relayed SMB_CONNECT under one generated agent of the chain, a task for the target and the newest child is routed half-way, afterwards tasks for the first, last and threshold-adjacent children and for the target must each open at the right agent under its key. Non-trivial: depth >= 2 or an id >= 2^31; distinct = (depth, big id, sibling, scenario)",
 		Gen:   gen, Check: check, Classify: classify,
 		Assumptions: []string{"the Demon's pipe framing and PivotPush wrapping are transcribed from TransportSmb.c / Pivot.c / Command.c"},
 	})
